@@ -33,6 +33,11 @@ CHECKS = {
             "For the session, task and thread streams (thread with the sidecar present and deleted) every interleaving of the producer's lock/publish/record steps with one subscriber's subscribe / snapshot steps is executed with no preemption bound (two subscribers: preemption bound 2 in quick for sessions, all kinds in thorough); each execution runs the real run_session / TaskEmitter::emit / append_message against the real GET .../events handler, and the frames the subscriber's body yields must be exactly the stream's frames in the log, once, in order.",
             "Scheduling granularity = hook points; body polling order is not explored (the broadcast receiver buffers everything after subscribe; lag beyond the 16384-frame capacity is outside the quantifier); 3-4 frames per stream; replay determinism is asserted.",
             "DESIGN.md §3 C06"),
+    "C09": ("H-histories", "exploration",
+            "bounded exhaustive enumeration of thread histories x compaction commands x parameter domains on the real store against a reference planner evaluated on log replay",
+            "Every history of <=4 (quick) / <=5 (thorough) ops over {message, answered run, side effects, manual checkpoints at last/first message and by stride, auto, schedule variants, inflight job}; in the reached state cut points for 7 strides x 6 limits must equal the reference planner (warm store and a copy without caches); auto(stride,max_new) on copies must create exactly the planned checkpoints inside one job_spawned/job_ended bracket with readable summaries of matching coverage, identical text on a byte-identical twin store (modulo ids minted by the run), and a repeat with nothing to do must be a zero-byte noop; schedule decisions (noop / dry_run / skipped_inflight / scheduled / completed) must match the reference.",
+            "Depth and parameter bounds; the concurrent schedule/auto sub-check of the design is covered only by C01's pair exploration (AutoCompaction/ScheduleCompaction pairs: numbering, not bracket integrity); summary text compared modulo 64-hex ids minted by the run.",
+            "DESIGN.md §3 C09"),
     "C12": ("H-inputs", "exploration",
             "bounded exhaustive input enumeration (patch documents x workspace states) against a reference map model, real apply_patch on a real directory",
             "Every patch of <=2 ops (<=3 on a reduced set in thorough) over a 4-path / 12-hunk-list alphabet plus 16 malformed envelopes is applied by the real Workspace::apply_patch (and the apply_patch tool) to every enumerated workspace state; success must equal the reference map and name exactly the touched files, failure must leave every byte unchanged.",
